@@ -4,6 +4,8 @@ import (
 	"bytes"
 	"fmt"
 	"runtime"
+	"strings"
+	"sync"
 	"time"
 	"unsafe"
 )
@@ -61,6 +63,9 @@ func (ss *session) afterCall(sc *scenario, l layout, arena []byte, spans []span,
 			continue
 		}
 		f, t := diffRange(r.buf, r.want)
+		if f < 0 {
+			continue // (a buffer shared with a pool can be changing under us)
+		}
 		ss.later = append(ss.later, laterWrite{earlier: r.sc, later: sc, earlierLay: r.lay, laterLay: l, name: r.name, off: f, now: clone(r.buf[f:t]), was: clone(r.want[f:t])})
 		copy(r.want, r.buf) // report each write once
 	}
@@ -142,6 +147,40 @@ func (ss *session) recheck() (out []struct {
 // postGC runs a scenario alone, collects, and reports what changed afterwards
 // (used to attribute a late write to the innermost function).
 func postGC(sc *scenario, l layout) []cond {
+	// one verdict per (function, algorithm, path): the late write does not
+	// depend on lengths or layout, and every verdict costs two collections
+	id := sc.site + "|" + sc.fn + "|" + pathOf(sc.id)
+	postGCMu.Lock()
+	if c, ok := postGCMemo[id]; ok {
+		postGCMu.Unlock()
+		return c
+	}
+	postGCMu.Unlock()
+	c := postGCRun(sc, l)
+	postGCMu.Lock()
+	postGCMemo[id] = c
+	postGCMu.Unlock()
+	return c
+}
+
+var (
+	postGCMu   sync.Mutex
+	postGCMemo = map[string][]cond{}
+)
+
+// pathOf drops the length / layout-ish parts of a scenario id.
+func pathOf(id string) string {
+	var keep []string
+	for _, p := range strings.Split(id, "|") {
+		if strings.HasPrefix(p, "len=") || strings.HasPrefix(p, "aad#") || p == "inner" {
+			continue
+		}
+		keep = append(keep, p)
+	}
+	return strings.Join(keep, "|")
+}
+
+func postGCRun(sc *scenario, l layout) []cond {
 	ss := &session{}
 	sc.runS(l, ss)
 	gcSettle()
@@ -190,24 +229,28 @@ func writesToEarlierResult(earlier *scenario, el layout, later *scenario, ll lay
 	return false
 }
 
+// laterFinding: the defect is that the EARLIER call returned memory it (or a
+// pool behind it) still uses, so the finding is keyed by the earlier call -
+// innermost exported function that still shows it when followed by the same
+// later call. (Which later call did the writing can be a different worker's when
+// the memory is shared through a pool; it is named in the message only.)
 func laterFinding(w laterWrite) seqFinding {
-	// attribute to the innermost function that still does it after the same earlier call
-	site, via := w.later.site, ""
-	for cur, lay := w.later, w.laterLay; cur.inner != nil; {
+	site, via := w.earlier.site, ""
+	for cur, lay := w.earlier, w.earlierLay; cur.inner != nil; {
 		in := cur.inner()
 		if in == nil {
 			break
 		}
 		il := layoutFor(in, cur, lay)
-		if !writesToEarlierResult(w.earlier, w.earlierLay, in, il) {
+		if !writesToEarlierResult(in, il, w.later, w.laterLay) {
 			break
 		}
-		site, via = in.site, " (seen through "+w.later.fn+")"
+		site, via = in.site, " (seen through "+w.earlier.fn+")"
 		cur, lay = in, il
 	}
-	key := site + "/writes-to-buffer-returned-by-earlier-call"
-	msg := fmt.Sprintf("%s %s%s wrote to the buffer that the earlier call %s %s had returned as %q (offset %d of its capacity: was %x, now %x). Memory a call returns belongs to the caller.",
-		w.later.id, layoutString(w.later, w.laterLay), via, w.earlier.id, layoutString(w.earlier, w.earlierLay), w.name, w.off, trunc(w.was), trunc(w.now))
+	key := site + "/returned-buffer-written-by-later-call"
+	msg := fmt.Sprintf("the buffer that %s %s%s returned as %q was written to afterwards, while %s %s ran (offset %d of its capacity: was %x, now %x). Memory a call returns belongs to the caller.",
+		w.earlier.id, layoutString(w.earlier, w.earlierLay), via, w.name, w.later.id, layoutString(w.later, w.laterLay), w.off, trunc(w.was), trunc(w.now))
 	return seqFinding{finding{key, msg}, Case{Scenario: w.later.id, Spare: w.laterLay.spare, Adjacent: w.laterLay.adj, Layout: layoutString(w.later, w.laterLay),
 		Earlier: &Case{Scenario: w.earlier.id, Spare: w.earlierLay.spare, Adjacent: w.earlierLay.adj, Layout: layoutString(w.earlier, w.earlierLay)}}}
 }
@@ -276,8 +319,14 @@ func handOver(a, b *scenario, resA, argB int) (fs []finding, ran bool) {
 	outB := b.call(slicesB)
 	role := b.args[argB].role
 	what := fmt.Sprintf("%s after %s, with the %q returned by the first call handed in as %s (len %d, cap %d)", b.id, a.id, outA.names[resA], role, len(given), cap(given))
-	if !bytes.Equal(full, want) {
+	if !bytes.Equal(full, want) && writesToEarlierResult(a, la, b, lb) {
+		// B writes to what A returned even when it is NOT handed in: A's result
+		// is not exclusively the caller's; the sequence oracle reports that
+	} else if !bytes.Equal(full, want) {
 		f, t := diffRange(full, want)
+		if f < 0 {
+			f, t = 0, 0
+		}
 		region := "overwrites-" + role
 		if f >= len(given) {
 			region = "appends-into-" + role + "-capacity"
@@ -286,6 +335,9 @@ func handOver(a, b *scenario, resA, argB int) (fs []finding, ran bool) {
 	}
 	if !bytes.Equal(arenaA, afterA) {
 		f, t := diffRange(arenaA, afterA)
+		if f < 0 {
+			f, t = 0, 0
+		}
 		fs = append(fs, finding{b.site + "/writes-to-arguments-of-earlier-call", fmt.Sprintf("%s: the first call's argument arena changed at %d: now %x", what, f, trunc(arenaA[f:t]))})
 	}
 	// B's own arena and results; a result sharing memory with the handed-in buffer is aliasing of that argument
